@@ -34,8 +34,10 @@ def run(chk):
     thorough = chk.tier == "thorough"
     binary = vlib.harness_build()
     cl.model_check(chk, 4 if thorough else 3, big=False)
+    cl.model_check_refinement(chk, 3 if thorough else 2)
     if thorough:
         cl.model_check(chk, 3, big=True)
+        cl.apalache_txnmap(chk)
     sc = cl.model_scenarios(chk, 2) + cl.model_scenarios(chk, 3, keep_every=1 if thorough else 24, offset=chk.seed)
     walks = cl.random_walks(chk.seed, 2000 if thorough else 100, 40)
     sim = similar_tokens()
